@@ -211,6 +211,18 @@ where
     }
 }
 
+/// First token of a subtree
+fn first_token_index(node_id: GreenNodeId, ctx: &PrintContext) -> Option<usize> {
+    match ctx.arena.get(node_id) {
+        mimium_lang::compiler::parser::green::GreenNode::Token { token_index, .. } => {
+            Some(*token_index)
+        }
+        mimium_lang::compiler::parser::green::GreenNode::Internal { children, .. } => children
+            .iter()
+            .find_map(|&c| first_token_index(c, ctx)),
+    }
+}
+
 /// Comments in the trivia of a token that the printer re-creates from a constant (`,` `{` `}`)
 fn trivia_comments<'a, D, A>(
     token_index: usize,
@@ -1033,10 +1045,21 @@ where
             result = result.append(child_doc.group());
             seen_cond = true;
         } else if !seen_then && seen_cond {
-            // This is the then branch - use softline before to allow breaking
-            result = result
-                .append(allocator.softline())
-                .append(child_doc.group());
+            // This is the then branch - use softline before to allow breaking.
+            // A branch that starts with `(` or `[` would be parsed as a call / index of the
+            // condition when it follows on the same line: the line break is forced there.
+            let opens_postfix = first_token_index(child, ctx).is_some_and(|i| {
+                matches!(
+                    ctx.tokens[i].kind,
+                    TokenKind::ParenBegin | TokenKind::ArrayBegin
+                )
+            });
+            let sep = if opens_postfix {
+                allocator.hardline()
+            } else {
+                allocator.softline()
+            };
+            result = result.append(sep).append(child_doc.group());
             seen_then = true;
         } else if seen_else {
             // This is the else branch (could be nested IfExpr for else if)
